@@ -82,6 +82,10 @@ def _footprint(name, key, arr):
             (np.asarray(r).reshape(-1) if not isinstance(r, slice) else np.arange(arr.shape[0])[r])
         cols = np.asarray(c).reshape(-1) if not isinstance(c, slice) else np.arange(arr.shape[1])[c]
         return dict(cells_rows=[int(v) for v in rows], cells_cols=[int(v) for v in cols])
+    if isinstance(key, np.ndarray) and key.ndim == 1:
+        # x[row mask] / x[row indices]: whole rows
+        rows = np.arange(arr.shape[0])[key] if key.dtype == np.bool_ else np.asarray(key).reshape(-1)
+        return dict(cells_rows=[int(v) for v in rows], cells_cols=list(range(arr.shape[1])))
     return dict(cells_rows=list(range(arr.shape[0])), cells_cols=list(range(arr.shape[1])))
 
 
@@ -101,8 +105,8 @@ class Traced(np.ndarray):
                   thread=threading.get_ident(), locked=bool(getattr(_state, 'locked', 0)), **_footprint(name, key, self))
         if isinstance(out, np.ndarray):
             out = out.view(np.ndarray)
-            if WIDEN and name == 'masks' and r is not None and not getattr(_state, 'locked', 0) and getattr(_state, 'task', None) is not None:
-                out = out.copy()
+            if WIDEN and name in ('masks', 'x') and r is not None and not getattr(_state, 'locked', 0) and getattr(_state, 'task', None) is not None:
+                out = out.copy()          # (a fancy-indexed read of x is a copy already)
                 import time
                 time.sleep(WIDEN)
         return out
